@@ -242,8 +242,8 @@ Proof.
     apply andb_true_iff in Hv. destruct Hv as [Hv Hn]. apply andb_true_iff in Hv. destruct Hv as [Hb Hq].
     destruct (base_valid_inv _ _ _ Hb) as [t [-> [Ht [Hcs Hval]]]].
     cbn [apply_op nq vec hd0]. rewrite Hval. cbn [hd0] in Hq, Hn. apply N.ltb_lt in Hq.
-    destruct (N.eqb_spec t (n - 1)); [lia|]. cbn [op_spec hd0]. do 2 f_equal.
-    apply negb_true_iff, existsb_eqb_notin in Hn.
+    destruct (N.eqb_spec t (n - 1)); [lia|]. apply negb_true_iff in Hn. rewrite Hn. cbn [op_spec hd0]. do 2 f_equal.
+    apply existsb_eqb_notin in Hn.
     apply match_spec; auto.
 Qed.
 End C01.
